@@ -405,10 +405,6 @@ def applicable_pre(world: World, op) -> bool:
         return False
     if name == 'append':
         return node._waveform is None
-    if name == 'unrollchildren':
-        return len(node) > 0                      # PF-C06-1: unroll_children on a leaf
-    if name == 'split':
-        return op[2] is None or op[2] >= 0        # PF-C06-2: negative child_index
     if name in ('roll', 'cleanup'):
         if name == 'cleanup' and op[3] and _vol_nested(node, False):
             return False                          # cleanup would merge two volatile counts (PF-07/08)
@@ -553,7 +549,10 @@ def rand_op(rng, world: World, max_nodes=70):
                 if n == 0 and not bad:
                     continue
                 cand = [j for j, c in enumerate(node) if c.repetition_count > 1]
-                op = ['split', path, rng.choice(cand) if cand and not bad else rng.randrange(0, n + 2)]
+                idx = rng.choice(cand) if cand and not bad else rng.randrange(-n - 1, n + 2)
+                if n and rng.random() < 0.3:
+                    idx -= n                       # the same child addressed from the end
+                op = ['split', path, idx]
         elif name == 'encapsulate':
             if size > max_nodes:
                 continue
@@ -631,17 +630,19 @@ def run_history(init_spec, ops=None, rng=None, length=0, probe_every=True):
     return rec
 
 
-HARD = (2, 3, 4, 5)     # rep, vol, wf, meas
+HARD = (2, 3, 4)     # rep, vol, wf; of the measurements only the names (where the windows lie is C02's business)
 
 
 def diff_trees(impl, model, path=()):
-    """(hard difference or None, number of soft differences [uid, cache, pidx, parent])"""
+    """(hard difference or None, number of soft differences [uid, cache, pidx, parent, window positions])"""
     for i in HARD:
         if impl[i] != model[i]:
             return ('field %d at %s: implementation %s, model %s' % (i, list(path), impl[i], model[i]), 0)
+    if [m[1] for m in impl[5]] != [m[1] for m in model[5]]:
+        return ('measurement names at %s: implementation %s, model %s' % (list(path), impl[5], model[5]), 0)
     if len(impl[9]) != len(model[9]):
         return ('number of children at %s: implementation %d, model %d' % (list(path), len(impl[9]), len(model[9])), 0)
-    soft = sum(1 for i in (1, 6, 7, 8) if impl[i] != model[i])
+    soft = sum(1 for i in (1, 5, 6, 7, 8) if impl[i] != model[i])
     for k, (a, b) in enumerate(zip(impl[9], model[9])):
         h, s = diff_trees(a, b, path + (k,))
         if h:
@@ -1053,9 +1054,8 @@ def run(ctx: core.Ctx):
     ctx.assumptions = [
         'waveforms are abstracted to (kind, duration, constant?, reversed?) records; durations are exact TimeType rationals',
         'smallest_factor_ge (sympy divisors) is modelled by its specification: the least divisor >= min_factor',
-        'input classes left to other findings are not generated: unroll_children on a leaf (PF-C06-1), split_one_child with a '
-        'negative index (PF-C06-2), merging two volatile counts (PF-07/08), nodes carrying a waveform AND children for '
-        'append_child / cleanup / roll_constant_waveforms (class docstring: either a waveform or children)',
+        'input classes not generated: merging two volatile counts, directly or inside cleanup (PF-07/08), nodes carrying a '
+        'waveform AND children for append_child / cleanup / roll_constant_waveforms (class docstring: either a waveform or children)',
         'operations address nodes of ONE tree whose root has no parent pointer; editing detached nodes / copies that still '
         'point to a former parent is the open finding PF-C09-2',
     ]
